@@ -1843,6 +1843,11 @@ fn main() {
                         continue;
                     }
                     let key = impl_key(im);
+                    // only impl blocks of types the contracts already cover (some method is a unit)
+                    let covered = im.items.iter().any(|ii| if let ImplItem::Fn(m) = ii { units.get(&format!("impl:{}/{}", key, m.sig.ident)).map(|u| !u.id.starts_with("auto:")).unwrap_or(false) } else { false });
+                    if !covered {
+                        continue;
+                    }
                     for ii in &im.items {
                         if let ImplItem::Fn(m) = ii {
                             let n = m.sig.ident.to_string();
